@@ -28,7 +28,7 @@ class AbsMethod:
     def __init__(self, recv, tyname, name): self.recv = recv; self.tyname = tyname; self.name = name
 
 BUILTIN_EXC = set(S._BUILTIN_BASES) | {"BaseException"}
-BUILTINS = {"eval", "hasattr", "getattr", "iter", "print", "float", "len", "int", "str", "isinstance", "enumerate", "range", "zip", "dict", "tuple", "list", "ord", "chr", "repr", "any", "all", "sum", "max", "min", "sorted", "set", "type", "next", "super", "abs", "bool"}
+BUILTINS = {"eval", "hasattr", "getattr", "iter", "print", "float", "len", "int", "str", "isinstance", "enumerate", "range", "zip", "dict", "tuple", "list", "ord", "chr", "repr", "any", "all", "sum", "max", "min", "sorted", "set", "type", "next", "super", "abs", "bool", "bytes", "bytearray"}
 
 repr_str = z3.Function("repr_str", z3.StringSort(), z3.StringSort())
 
